@@ -17,7 +17,7 @@ import warnings
 warnings.filterwarnings("ignore")
 
 ROOT = os.path.dirname(os.path.dirname(os.path.dirname(os.path.abspath(__file__))))  # /verif
-MAX_ROUNDS = 8
+MAX_ROUNDS = 12
 NSHARDS_THOROUGH = int(os.environ.get("VERIF_SHARDS", "16"))
 
 
